@@ -535,6 +535,9 @@ class FunctionVC(Executor):
                 if c.get("mustfail"):
                     # soundness guard (DESIGN 2.4 iii): a deliberately wrong postcondition must NOT be provable on every path
                     self.oblige(f"mustfail.path{n_ret}", "mustfail", s, self.eval_clause(c["mustfail"], s), {"clause": c["mustfail"]}, aux=True)
+                else:
+                    # generic vacuity guard: `False` must not be provable on every return path (inconsistent path conditions)
+                    self.oblige(f"mustfail.path{n_ret}", "mustfail", s, z3.BoolVal(False), {"clause": "False (vacuity guard: some return path is feasible)"}, aux=True)
                 for cls, cond in raises.items():
                     if cond in (True, "True"):
                         continue
